@@ -881,6 +881,13 @@ func worker(js string) {
 	if os.Getenv("VERIF_TIER") == "thorough" {
 		deadline = time.Now().Add(scaled(20 * time.Minute))
 	}
+	// the parent also gives every pass an absolute end (a pass with more jobs than cores runs them in waves):
+	// past it a job stops with what it has completed (reported as incomplete, never as a verdict)
+	if ms, err := strconv.ParseInt(os.Getenv("VX_PASS_END_UNIXMS"), 10, 64); err == nil && ms > 0 {
+		if end := time.UnixMilli(ms); end.Before(deadline) {
+			deadline = end
+		}
+	}
 	for b := 0; b <= j.PB; b++ {
 		st := vx.Explore(vx.Options{PreemptBound: b, EnvBound: j.EB, Deadline: deadline, RaceLog: raceLog},
 			func(prefix []int) (vsched.Result, any) { r, o := runOnce(j, prefix); return r, o },
@@ -1179,7 +1186,12 @@ func main() {
 			jobs = append(jobs, j.String())
 		}
 		t0 := time.Now()
-		merge(vx.RunWorkers(self, []string{"VERIF_TIER=" + c.Tier}, jobs, c.Workers(), perJob), "sched")
+		passLen := scaled(70 * time.Second)
+		if thorough {
+			passLen = scaled(12 * time.Minute)
+		}
+		passEnd := func() string { return fmt.Sprintf("VX_PASS_END_UNIXMS=%d", time.Now().Add(passLen).UnixMilli()) }
+		merge(vx.RunWorkers(self, []string{"VERIF_TIER=" + c.Tier, passEnd()}, jobs, c.Workers(), perJob), "sched")
 		c.Set("scenario_jobs", len(jobs))
 		c.Set("sched_pass_wall_s", int(time.Since(t0).Seconds()))
 		if raceBin == "" {
@@ -1199,7 +1211,7 @@ func main() {
 			rjobs = append(rjobs, j.String())
 		}
 		t1 := time.Now()
-		merge(vx.RunWorkers(raceBin, renv, rjobs, c.Workers(), perJob), "race")
+		merge(vx.RunWorkers(raceBin, append(renv, passEnd()), rjobs, c.Workers(), perJob), "race")
 		c.Set("race_jobs", len(rjobs))
 		c.Set("race_pass_wall_s", int(time.Since(t1).Seconds()))
 		ms, _ := filepath.Glob(raceLog + ".*")
